@@ -948,6 +948,16 @@ theorem lc_check_on_stabilizer_states_total_and_right (t1 t2 : STab) (hn1 : 0 < 
       ∃ total, lcCheckStates t1 t2 validate = .ok (true, total) ∧ STab.SpanEq (t1.runCircuit total) t2 :=
   lcCheckStates_total t1 t2 hn1 hn g1 i1 g2 i2 validate
 
+/-- the same for mixed inputs, a stabilizer state and a graph (`lc_check(tableau, graph)`, modelled by `lcCheckStateGraph` and
+    compared exactly with the implementation): total, and after `(True, total)` the gate list maps the state exactly onto the graph
+    state -/
+theorem lc_check_on_state_and_graph_total_and_right (t1 : STab) (g2 : BMat) (hn1 : 0 < t1.n) (hr : g2.r = t1.n)
+    (hs2 : Simple g2.r g2.f) (g1 : t1.Good) (i1 : t1.Indep) (validate : Bool) :
+    lcCheckStateGraph t1 g2 validate = .ok (false, []) ∨
+      ∃ total, lcCheckStateGraph t1 g2 validate = .ok (true, total) ∧
+        STab.SpanEq (t1.runCircuit total) (graphSTab g2.r g2.f) :=
+  lcCheckStateGraph_total t1 g2 hn1 hr hs2 g1 i1 validate
+
 set_option maxRecDepth 100000 in
 /-- non-vacuity (kernel-checked): on the pair below the modelled `lc_check` returns `(True, [H 0, H 1, H 1])` — the gate list
     the implementation returns -/
